@@ -215,7 +215,10 @@ func (e *Enc) bindCallee(ci *calleeInfo, ctx *evalCtx) {
 		if ci.closure != nil {
 			for i, fv := range ci.fn.FreeVars {
 				if i < len(ci.closure.Bindings) {
-					bindArg(fv.Name(), ci.closure.Bindings[i])
+					b := ci.closure.Bindings[i]
+					if fv.Name() != "" && fv.Name() != "_" {
+						ctx.bind[fv.Name()] = TV{T: e.term(b), Typ: b.Type(), Sort: e.st.sortOf(b.Type()), Cell: true}
+					}
 				}
 			}
 		}
